@@ -135,7 +135,7 @@ def run(tier, seed, t0):
     tot, h, fo2 = daemon.collect(PROP, ["C08."], res2, files, v, args)
     hits |= h
     nscen, nsig = daemon.count_scenarios(files)
-    need = ["C08.outcome", "C08.outcome-model", "C07.probe", "C07.announce", "C09.goodbye", "C06.answered"]
+    need = ["C08.outcome", "C08.outcome-model", "C08.backoff", "C07.probe", "C07.announce", "C09.goodbye", "C06.answered"]
     vac = [x for x in need if x not in hits]
     for x in vac:
         v.note("vacuous: clause tag %s was never exercised by this run" % x)
